@@ -1521,8 +1521,16 @@ lauf 1.
 NESTED_CALL_EXPECTED = "2|ein lokaler Text, der lang genug ist|8|1 2 3 |"
 
 
+# 'Speichere a in b' where a and b are the same storage under two names that share no syntactic root: two Referenz
+# parameters bound to one variable, a Referenz parameter bound to the global the callee reads (Text and list)
+ALIAS_ASSIGN = 'Binde "Duden/Ausgabe" ein.\n\nDer Text gt ist "globaler Text mit mehr als sechzehn Zeichen".\nDie Text Liste gl ist eine Liste, die aus "eins", "zwei", "drei" besteht.\n\nDie Funktion uebertrage mit den Parametern a und b vom Typ Text Referenz und Text Referenz, gibt nichts zurück, macht:\n\tSpeichere a in b.\nUnd kann so benutzt werden:\n\t"Übertrage <a> nach <b>"\n\nDie Funktion setze_text mit dem Parameter r vom Typ Text Referenz, gibt nichts zurück, macht:\n\tSpeichere gt in r.\nUnd kann so benutzt werden:\n\t"Setze <r> auf den globalen Text"\n\nDie Funktion setze_liste mit dem Parameter r vom Typ Text Listen Referenz, gibt nichts zurück, macht:\n\tSpeichere gl in r.\nUnd kann so benutzt werden:\n\t"Setze <r> auf die globale Liste"\n\nDer Text x ist "Hallo Welt, das ist ein ziemlich langer Text".\nDer Text y ist "ein anderer Text".\nÜbertrage x nach y.\nSchreibe y.\nSchreibe \'|\'.\nÜbertrage x nach x.\nDer Text z ist "ZZZZZZZZZZZZZZZZZZZZZZZZZZZZZZZZZZZZZZZZZZZZ".\nSchreibe x.\nSchreibe \'|\'.\nSchreibe z.\nSchreibe \'|\'.\nSetze gt auf den globalen Text.\nDer Text w ist "WWWWWWWWWWWWWWWWWWWWWWWWWWWWWWWWWWWWWWWWWWW".\nSchreibe gt.\nSchreibe \'|\'.\nSchreibe w.\nSchreibe \'|\'.\nSetze gl auf die globale Liste.\nDie Text Liste neu ist eine Liste, die aus "NNNN", "MMMM", "OOOO" besteht.\nSchreibe (gl an der Stelle 1).\nSchreibe \'|\'.\nSchreibe (gl an der Stelle 3).\nSchreibe \'|\'.\nSchreibe (die Länge von gl).\nSchreibe \'|\'.\n'
+ALIAS_ASSIGN_EXPECTED = 'Hallo Welt, das ist ein ziemlich langer Text|Hallo Welt, das ist ein ziemlich langer Text|ZZZZZZZZZZZZZZZZZZZZZZZZZZZZZZZZZZZZZZZZZZZZ|globaler Text mit mehr als sechzehn Zeichen|WWWWWWWWWWWWWWWWWWWWWWWWWWWWWWWWWWWWWWWWWWW|eins|drei|3|'
+
+
 def raw_programs():
     return [
+        (dict(kind="raw", name="assignment between two names of one storage (two Referenz parameters / Referenz parameter and the global the callee reads)"),
+         dict(raw=ALIAS_ASSIGN, expected=ALIAS_ASSIGN_EXPECTED, name="assignment between two names of one storage")),
         (dict(kind="raw", name="Kombination nested three levels deep: copies of the outermost value, then in-place changes"),
          dict(raw=NESTED, expected=NESTED_EXPECTED, name="Kombination nested three levels deep")),
         (dict(kind="raw", name="value parameter handed on by Referenz inside the argument of another call"),
@@ -1738,7 +1746,9 @@ def operator_program(ty):
     exp.append("3|" + t["shown"] + "|4|" + ck_written(ty, 92) + "|")
     src.append('Die Funktion szene mit dem Parameter n vom Typ Zahl, gibt nichts zurück, macht:\n%s\nUnd kann so benutzt werden:\n\t"szene <n>"\n\nszene 1.\n' % "\n".join(sz))
     name = "value parameter handed to an overloaded operator (unary, binary, cast) by Referenz (%s)" % T
-    return (dict(kind="raw", name=name, ck=("operator", ty), tables={"kern_neg": "0", "kern_plus": "0", "kern_als": "0", "kern_mal": "1", "op_mal": "01"}),
+    # kern_mal: handing p to a by-value parameter the callee writes counts as a write of p for the annotator (VisitFuncCall
+    # does not distinguish value from Referenz parameters), as in the model's `analyse`
+    return (dict(kind="raw", name=name, ck=("operator", ty), tables={"kern_neg": "0", "kern_plus": "0", "kern_als": "0", "kern_mal": "0", "op_mal": "01"}),
             dict(raw="\n".join(src), expected="".join(exp), name=name))
 
 
